@@ -124,7 +124,11 @@ mode_t vf_umask(mode_t m) { return 022; }
 int vf_chdir(const char *d) { return 0; }
 time_t vf_time(time_t *t) { return 820458334; }
 void checkhome(void) {}
-void bouncexf(void) {}
+/* bouncexf() is cut (obligation bouncexf proves what it does); what the cut relies on is WHEN
+ * it runs: a message that already carries its own Delivered-To line must be bounced before
+ * ANY instruction is executed, so the check has to come before the first delivery */
+static int bouncexf_called;
+void bouncexf(void) { bouncexf_called = 1; }
 void count_print(void) {}
 
 void *vf_calloc(size_t n, size_t sz)
@@ -163,6 +167,7 @@ static void on_event(int type, const char *arg)
 {
   unsigned char o;
   CHECK(!NFLAG, "C13: -n delivers nothing");
+  CHECK(bouncexf_called, "C13: the Delivered-To loop check runs before any instruction is executed");
   CHECK(!stopped99, "C13: after exit code 99 all further instructions are ignored");
   CHECK(!forward_called, "C13: forwarding comes after all other instructions");
   CHECK(ndone < nev, "C13: no delivery without an instruction line for it");
@@ -184,6 +189,7 @@ void mailforward(char **recips)
 {
   unsigned int i, nexp = stopped99 ? fw_expected : nfw;
   CHECK(!NFLAG, "C13: -n forwards nothing");
+  CHECK(bouncexf_called, "C13: the Delivered-To loop check runs before the message is forwarded");
   CHECK(!forward_called, "C13: forwarding happens once");
   forward_called = 1;
   if (!stopped99) CHECK(!refuse && ndone == nev, "C13: forwarding only after all other instructions succeeded");
